@@ -33,6 +33,22 @@ CHECKS = {
    "reference-model monitor (segment-stack containment, no path.Clean) plus the real file system as canary (inode/content of what the result reaches)",
    "All strings of length up to 8 (quick) / 10 (thorough) over {'/', '.', 'a', '\\'} x 12 base spellings against a lexical containment model, and up to 7/9 against a real temp tree with SECRET files outside the base where os.Stat/os.ReadFile of the result must stay inside (absolute and, after chdir, relative bases); random hostile paths with %2e, backslashes, long segments.",
    "POSIX only; symlinks inside the base are outside the statement.", "§3 C17"),
+ "C02": ("logatomic", "exploration",
+   "recording io.Writer (overlap counter, per-call payload copies) + offline multiset check against alone-replay lines; Go race detector on the same runs",
+   "Concurrent runs of 2-32 goroutines logging through the root, pre-derived children and children derived on the fly, all three handlers, all five thresholds, line sizes from tiny to 40 KiB around the 16 KiB pool limit, GOMAXPROCS 2/4/16, plain and under -race. The destination counts Write calls that overlap and dwells inside; afterwards the time-stripped payloads must be exactly the multiset of lines the records produce when logged alone, and #Write == #records at or above the threshold (decided from the level, not from glb).",
+   "Held on the schedules that occurred (context switches in the output order are reported); writers that fail or write short are outside the statement.", "§3 C02"),
+ "C03": ("logderive", "exploration",
+   "differential monitor: every line of a derivation tree vs the alone replay of that logger's own chain; With-vs-call-site decoded equality; race detector on concurrent derivation from a shared parent",
+   "Sibling sweep over a non-root parent whose pre-rendered bytes take every length 0..200 (every spare capacity of the append growth policy), 2-4 children, several derive/log orders and all orders of up to 6 ops for selected lengths; random trees (depth 5, fan-out 4, 40 ops) with rich attribute forests; With(A).WithGroup(g).With(B).Log(C) == Log(A, Group(g,B,C)) and With(A).With(B).Log(C) == Log(A,B,C) over enumerated and random forests; concurrent derivation plain and under -race.",
+   "The alone replay runs the same glb code on a fresh root, so the check decides isolation and With/call-site equivalence, not absolute format correctness (C01/C13 do that).", "§3 C03"),
+ "C18": ("filecopy", "fault_enumeration",
+   "content-snapshot monitor (SHA-256 before/after) on two real file systems with strace syscall fault injection and RLIMIT_FSIZE inside the copy",
+   "Complete product of sizes x destination kinds x aliasing spellings x same/other file system for CopyFile and MoveFile; real EXDEV via /dev/shm; strace injects failing rename, copy_file_range (call 1 and 2), read/write fallback faults, openat, fstat and unlinkat errors into a probe process performing exactly one call; the oracle requires destination == source snapshot on nil and an intact source on error.",
+   "Needs ptrace/strace (rows are listed as skipped otherwise); close() and destination-stat faults are not injected.", "§3 C18"),
+ "C19": ("progress", "exploration",
+   "event-log monitor: writer/consumer histories checked offline (Size == sum n, monotone prefix sums, final total, closed channel); blocked-writer decided structurally from goroutine dumps; race detector",
+   "2 300 (quick) / 240 000 (thorough) seeded scenarios over 6 wrapped-writer behaviours x StringWriter or not x op lists of Write/WriteString up to 50 ops x 5 consumer behaviours, at GOMAXPROCS 1/2/4/16 and under -race; evidence counts received vs skipped sends and intermediate values per consumer kind.",
+   "Size() from another goroutine while writing is unsynchronised in glb and not promised; not driven.", "§3 C19"),
 }
 BUILT = set(CHECKS)
 
